@@ -373,6 +373,13 @@ def generate(ctx):
         else:
             op = {"partition_size": rng.choice([8, 40, 100, 1000])}
         yield "repartition", {"parts": keys, "divs": divs, "op": op}
+    # partition counts whose ratio is not exactly representable (15->11, 26->23, 30->11 ...): API level
+    hard = [(o, n) for o in range(2, 41) for n in range(1, o) if int(n * (o / n)) != o or [int(i * (o / n)) for i in range(n + 1)] != [i * o // n for i in range(n + 1)]]
+    picks = hard if ctx.thorough() else rng.sample(hard, min(len(hard), 12))
+    for old, new in picks + [(15, 11), (30, 11)]:
+        known = rng.random() < 0.5
+        keys = [[i] for i in range(old)]
+        yield "repartition", {"parts": keys, "divs": list(range(old)) + [old - 1] if known else None, "op": {"npartitions": new}}
     for _ in range(ctx.n(120, 1200)):
         ln = rng.randint(1, 24)
         idx = [rng.randint(0, rng.choice([3, 8, 30])) for _ in range(ln)]
